@@ -25,16 +25,18 @@ for u in plan["units"]:
     for name, file, kind in out:
         if kind == "proved": proved.setdefault(name, (u, file))
         elif kind == "external": external.setdefault(name, []).append(u)
+private = {k: v for k, v in external.items() if k in proved}
 external = {k: v for k, v in external.items() if k not in proved}
 src = open("/repo/crates/sas-lexer/src/lexer/mod.rs").read()
 allm = re.findall(r"^    (?:pub(?:\(crate\))? )?(?:const )?fn (\w+)", src, re.M)
 none = [m for m in allm if f"Lexer::{m}" not in proved and f"Lexer::{m}" not in external]
 if "--json" in sys.argv:
-    print(json.dumps({"proved": {k: v[0] for k, v in proved.items()}, "assumed": external, "no_contract": none}, indent=1))
+    print(json.dumps({"proved": {k: v[0] for k, v in proved.items()}, "assumed": external, "privately_assumed": private, "no_contract": none}, indent=1))
 else:
     byu = {}
     for k, (u, f) in proved.items(): byu.setdefault(u, []).append(k)
     for u in sorted(byu): print(u, len(byu[u]), ", ".join(sorted(byu[u])))
     print("ASSUMED (external, proved nowhere):", ", ".join(f"{k}[{','.join(v)}]" for k, v in sorted(external.items())))
+    print("PRIVATELY ASSUMED although proved in another unit (must be empty: take the proved contract with //@needs):", ", ".join(f"{k}[{','.join(v)}; proved {proved[k][0]}]" for k, v in sorted(private.items())) or "none")
     print("Lexer methods under no contract:", ", ".join(none))
     print("totals: proved", len(proved), "assumed", len(external), "Lexer methods in mod.rs", len(allm), "of which proved", sum(1 for m in allm if f"Lexer::{m}" in proved))
